@@ -406,3 +406,117 @@ theorem verifier_verify_issued (rt : Rt) (mk : Nat → Option String → J → S
   rfl
 
 end Impl
+
+namespace Impl
+
+/-- a presentation with a key-binding JWT splits into its parts -/
+theorem sdJwtParts_assemble_kb (jwt : String) (strs : List String) (kb : String)
+    (hj : '~' ∉ jwt.toList) (hs : ∀ s ∈ strs, '~' ∉ s.toList) (hk : '~' ∉ kb.toList) (hne : kb.toList ≠ []) :
+    sdJwtParts (assemble jwt strs ++ kb).toList =
+      .ok { jwt := jwt.toList, disclosures := strs.map (·.toList), kb := some kb.toList } := by
+  have hsplit : splitOn '~' (assemble jwt strs ++ kb).toList =
+      jwt.toList :: (strs.map (·.toList) ++ [kb.toList]) := by
+    rw [String.toList_append, toList_assemble]
+    have : ((jwt.toList ++ (strs.map (fun d => '~' :: d.toList)).flatten) ++ ['~']) ++ kb.toList =
+        (jwt.toList ++ ((strs.map (·.toList)).map (fun d => '~' :: d)).flatten) ++ '~' :: kb.toList := by
+      simp [List.map_map, Function.comp_def]
+    rw [this, splitOn_append_sep '~' _ kb.toList hk,
+      splitOn_joined '~' (strs.map (·.toList)) jwt.toList hj (by
+        intro d hd
+        obtain ⟨s, hs', rfl⟩ := List.mem_map.mp hd
+        exact hs s hs')]
+    rfl
+  unfold sdJwtParts
+  simp only [hsplit]
+  have hlen : (jwt.toList :: (strs.map (·.toList) ++ [kb.toList])).length = strs.length + 2 := by simp
+  have hlast : (jwt.toList :: (strs.map (·.toList) ++ [kb.toList])).getLast? = some kb.toList := by
+    rw [List.getLast?_cons, List.getLast?_append]; simp
+  have htake : ((jwt.toList :: (strs.map (·.toList) ++ [kb.toList])).drop 1).take (strs.length + 2 - 2) =
+      strs.map (·.toList) := by
+    simp
+  simp only [hlen, hlast, htake, Option.getD_some, ne_eq, hne, not_false_eq_true, and_true]
+  by_cases hn : strs.length + 2 > 2
+  · simp [hn]
+  · have : strs = [] := by
+      cases strs with
+      | nil => rfl
+      | cons a r => simp at hn
+    subst this
+    simp
+
+/-- **Issuer → any selection → wire → verifier, bound token.**  The token is bound to the key
+`X`; the presentation ends with a key-binding JWT `kb` which the JWT library accepts under `X`
+(`kbDecode`), typed `kb+jwt`, whose `sd_hash` is the hash of the presentation up to and including
+its last `~`.  Then the verifier (with a key-binding policy) accepts and returns the header and
+the issued claims, projected on the selection, plus `cnf`. -/
+theorem verifier_verify_issued_bound (rt : Rt) (mk : Nat → Option String → J → String)
+    (paths : List String) (addr : List (List String × String)) (ms : MMems) (Tn : MJ)
+    (ds : List SDisc) (decoys : Option (List String)) (X : MJ) (jwt : String) (header : J)
+    (kept : List String) (kb : String) (kh kc : J)
+    (wf : (MJ.obj ms none).WF) (hplain : (MJ.obj ms none).digests = [])
+    (hk1 : "_sd_alg" ∉ ms.keys) (hk2 : "cnf" ∉ ms.keys)
+    (hp : ParsedAll paths addr) (h : markAll mk 0 addr (.obj ms none) = some (Tn, ds)) (hne : ds ≠ [])
+    (hdec : ∀ l, decoys = some l → l.Nodup ∧ (∀ g ∈ l, g ∉ Tn.digests))
+    (hX : X.WF ∧ X.digests = [])
+    (hsig : ∀ payload dsrc,
+      encode (MJ.obj ms none).payload paths mk decoys (some X.payload) = .ok (payload, dsrc) →
+      rt.jwtDecode jwt = .ok (header, payload))
+    (hstr : ∀ s ∈ kept, ∃ e ∈ ds,
+      fromBase64 (rt.env "sha-256") s = .ok ⟨s, e.digest, e.key, e.value⟩)
+    (hnd : (kept.map (rt.hash "sha-256")).Nodup)
+    (hj : '~' ∉ jwt.toList) (hs : ∀ s ∈ kept, '~' ∉ s.toList)
+    (hkb : '~' ∉ kb.toList) (hkbne : kb.toList ≠ [])
+    (hkty : (jidx X.payload "kty").asStr = some "RSA")
+    (he : (jidx X.payload "e").asStr.isSome = true) (hn : (jidx X.payload "n").asStr.isSome = true)
+    (hkbdec : rt.kbDecode kb X.payload = .ok (kh, kc))
+    (htyp : (jidx kh "typ").asStr = some "kb+jwt")
+    (hhash : (jidx kc "sd_hash").asStr = some (rt.hash "sha-256" (assemble jwt kept))) :
+    ∃ msn sdn, Tn = .obj msn sdn ∧
+      Verifier.verify rt (assemble jwt kept ++ kb) true =
+        .ok (header, .obj (ains "cnf" (X.project (fun g => kept.any fun s => decide (rt.hash "sha-256" s = g)))
+          (msn.project (fun g => kept.any fun s => decide (rt.hash "sha-256" s = g))))) := by
+  obtain ⟨msn, sdn, msF, sd1, c, ps, L, rfl, hjwt, halgF, hcnfF, hr, hc, _, _, _, _, _⟩ :=
+    issued_core rt mk paths addr ms Tn ds decoys (some X) jwt header kept wf hplain hk1 hk2 hp h hne hdec
+      (by intro X' hX'; cases hX'; exact hX) hsig hstr hnd
+  refine ⟨msn, sdn, rfl, ?_⟩
+  have halgJ : (jidx (MJ.obj msF sd1).payload "_sd_alg").asStr = some "sha-256" := by
+    simp only [MJ.payload, MJ.hview, jidx, aget_withSd_ne sd1 "_sd_alg" _ (by decide)]
+    rw [halgF]; rfl
+  have hcnfJ : jidx (MJ.obj msF sd1).payload "cnf" = X.payload := by
+    simp only [MJ.payload, MJ.hview, jidx, aget_withSd_ne sd1 "cnf" _ (by decide)]
+    rw [hcnfF]; rfl
+  have hnotnull : isNullJ X.payload = false := by
+    cases hxp : X.payload with
+    | null => rw [hxp] at hkty; simp [jidx, J.asStr] at hkty
+    | _ => rfl
+  have hparts := sdJwtParts_assemble_kb jwt kept kb hj hs hkb hkbne
+  have hstrs : (kept.map (·.toList)).map strOf = kept := by
+    simp [List.map_map, Function.comp_def, strOf, String.ofList_toList]
+  have hvkb : verifyKb rt kb X.payload = .ok (kh, kc) := by
+    have he' : ¬ (jidx X.payload "e").asStr.isNone = true := by
+      cases hh : (jidx X.payload "e").asStr <;> simp_all
+    have hn' : ¬ (jidx X.payload "n").asStr.isNone = true := by
+      cases hh : (jidx X.payload "n").asStr <;> simp_all
+    simp [verifyKb, hkty, he', hn', hkbdec, htyp]
+  have hdrop : dropKb (assemble jwt kept ++ kb).toList = (assemble jwt kept).toList := by
+    rw [String.toList_append, toList_assemble]
+    have : ((jwt.toList ++ (kept.map (fun d => '~' :: d.toList)).flatten) ++ ['~']) ++ kb.toList =
+        (jwt.toList ++ (kept.map (fun d => '~' :: d.toList)).flatten) ++ '~' :: kb.toList := by simp
+    rw [this, dropKb_append _ _ hkb]
+  have hparts' : sdJwtParts ((assemble jwt kept).toList ++ kb.toList) =
+      .ok { jwt := jwt.toList, disclosures := kept.map (·.toList), kb := some kb.toList } := by
+    rw [← String.toList_append]; exact hparts
+  have hdrop' : dropKb ((assemble jwt kept).toList ++ kb.toList) = (assemble jwt kept).toList := by
+    rw [← String.toList_append]; exact hdrop
+  have hstrs' : List.map (strOf ∘ fun x : String => x.toList) kept = kept := by
+    rw [← List.map_map]; exact hstrs
+  have hraw : Verifier.verifyRaw rt (assemble jwt kept ++ kb) true =
+      .ok (header, (MJ.obj msF sd1).payload, kept) := by
+    simp [Verifier.verifyRaw, hparts', strOf, String.ofList_toList, hjwt, halgJ, hcnfJ, hnotnull,
+      parseHashAlg, hstrs', hvkb, hhash, hdrop']
+  have hres : Verifier.verify rt (assemble jwt kept ++ kb) true = .ok (header, removeDigests c) := by
+    simp [Verifier.verify, hraw, halgJ, parseHashAlg, hr]
+  rw [hres, removeDigests_eq, hc]
+  rfl
+
+end Impl
